@@ -2,11 +2,16 @@
 //! Part D (E4): every wait-for graph on <= 5 transactions (+ rings with single chords on 6-8), built
 //!         through the real `add_wait` in two insertion orders: `detect_cycles`, `would_create_cycle`,
 //!         `DeadlockDetector::detect` (4 victim policies) against a transitive-closure reference.
-//! Part S (E4): every sequence of lock / release / expire / serialize-restore operations on a real
-//!         `LockManager` + `WaitForGraph` (replay BFS, dedup on the real observed state) against a
-//!         sequential lock table.
+//! Part G (E4): every sequence of wait-for-graph mutations (`add_wait`, `remove_wait`,
+//!         `remove_transaction`, `clear`, `cleanup_stale_edges`, clock) on the graph of a real
+//!         `DeadlockDetector` (replay BFS, dedup on the observed state) against an edge set.
+//! Part S (E4): every sequence of lock / release / expire / serialize-restore / wait-graph operations
+//!         on a real `LockManager` + `WaitForGraph` (replay BFS, dedup on the real observed state)
+//!         against a sequential lock table.
 //! Part K (E4): every sequence of coordinator operations (prepare, vote delivery, commit, abort,
 //!         timeout sweep, orphan sweep) on a real `DistributedTxCoordinator`.
+//! Part W (E4/fault enumeration): the sequences of part K on a coordinator with a real, size-capped
+//!         `TxWal`; every WAL append of every operation fails in turn (cap aligned record by record).
 //! Part T (E1): 2-3 real threads under vsched, every schedule with <= bound preemptions:
 //!         LockManager level = linearizability against the sequential lock table; coordinator level =
 //!         quiescent "finished transactions left nothing behind" + exclusivity + no deadlock.
@@ -20,8 +25,9 @@ use std::sync::{Arc, Mutex};
 use std::time::Duration;
 use tensor_chain::{
     ConsensusConfig, ConsensusManager, DeadlockDetector, DeadlockDetectorConfig, DistributedTxConfig, DistributedTxCoordinator, LockManager, PrepareRequest, PrepareVote, SerializableLockState,
-    Transaction, TxPhase, VictimSelectionPolicy, WaitForGraph,
+    Transaction, TxPhase, TxWal, TxWalEntry, VictimSelectionPolicy, WaitForGraph,
 };
+use tensor_chain::raft_wal::WalConfig;
 use tensor_store::SparseVector;
 use vsched::{Body, ExploreCfg, RunResult, Verdict};
 
@@ -342,6 +348,281 @@ fn part_d_large() -> DOut {
 }
 
 // ------------------------------------------------------------------------------------------------
+// Part G — every sequence of wait-for-graph mutations, against the set of recorded edges
+// ------------------------------------------------------------------------------------------------
+/// the real graph records exactly `want`: forward index, reverse index and edge_count
+fn compare_edges(g: &WaitForGraph, txs: &[u64], want: &BTreeSet<(u64, u64)>, after: &str) -> Result<(), (String, String)> {
+    let (fwd, rev) = observed_edges(g, txs);
+    if fwd != *want {
+        return Err((format!("c12:graph:after-{after}:waiting_for-differs-from-recorded-edges"), format!("the calls so far record {want:?}; waiting_for says {fwd:?}")));
+    }
+    if rev != *want {
+        return Err((format!("c12:graph:after-{after}:waiting_on-differs-from-recorded-edges"), format!("the calls so far record {want:?}; waiting_on says {rev:?} (remove_transaction of a holder finds its waiters through this index)")));
+    }
+    if g.edge_count() != want.len() {
+        return Err((format!("c12:graph:after-{after}:edge_count-differs-from-recorded-edges"), format!("the calls so far record {} edges {want:?}; edge_count() = {}", want.len(), g.edge_count())));
+    }
+    Ok(())
+}
+const G_TTL_MS: u64 = 1000;
+#[derive(Clone, Debug, PartialEq, Eq, Hash, Serialize, Deserialize)]
+enum GOp {
+    /// add_wait(waiter, holder, Some(priority)) one millisecond later; waiter == holder must be ignored
+    Add(u8, u8),
+    /// remove_wait(waiter, holder)
+    RemoveWait(u8, u8),
+    /// remove_transaction(tx)
+    RemoveTx(u8),
+    Clear,
+    /// clock + 600 ms
+    Advance,
+    /// cleanup_stale_edges(1000)
+    CleanupStale,
+}
+fn g_alphabet(n: usize) -> Vec<GOp> {
+    let mut v = vec![];
+    for (w, h) in pairs(n) {
+        v.push(GOp::Add(w as u8, h as u8));
+    }
+    for (w, h) in pairs(n) {
+        v.push(GOp::RemoveWait(w as u8, h as u8));
+    }
+    for t in 0..n {
+        v.push(GOp::RemoveTx(t as u8));
+    }
+    v.extend([GOp::Clear, GOp::Advance, GOp::CleanupStale]);
+    for t in 0..n {
+        v.push(GOp::Add(t as u8, t as u8));
+    }
+    v
+}
+struct GState {
+    /// one detector per victim policy, all driven with the same calls
+    dets: Vec<DeadlockDetector>,
+    n: usize,
+    max_edges: usize,
+    /// reference: the recorded wait-for relation
+    e: BTreeSet<(u64, u64)>,
+    now: u64,
+}
+fn g_fresh(n: usize, max_edges: usize) -> GState {
+    tclock::reset();
+    let dets = POLICIES
+        .iter()
+        .map(|p| {
+            let mut det = DeadlockDetector::new(DeadlockDetectorConfig::default().with_policy(*p).with_max_edges_per_tx(max_edges));
+            if *p == VictimSelectionPolicy::MostLocks {
+                det.set_lock_count_fn(|tx| ((tx * 3) % 5) as usize);
+            }
+            det
+        })
+        .collect();
+    GState { dets, n, max_edges, e: BTreeSet::new(), now: 0 }
+}
+fn g_stale(g: &WaitForGraph, txs: &[u64], now: u64) -> Vec<u64> {
+    txs.iter().copied().filter(|t| g.get_wait_start(*t).is_some_and(|s| (BASE_MS + now).saturating_sub(s) > G_TTL_MS)).collect()
+}
+fn g_apply(st: &mut GState, op: &GOp) -> Result<(), (String, String)> {
+    let txs: Vec<u64> = (0..st.n).map(did).collect();
+    let name = match op {
+        GOp::Add(w, h) => {
+            tclock::advance(1);
+            st.now += 1;
+            let (w, h) = (did(*w as usize), did(*h as usize));
+            for d in &st.dets {
+                d.graph().add_wait(w, h, Some(((w * 5 + 3) % 7) as u32));
+            }
+            // documented: a self-wait is invalid; beyond max_edges_per_tx the new edge is dropped
+            if w != h && st.e.iter().filter(|e| e.0 == w).count() < st.max_edges {
+                st.e.insert((w, h));
+            }
+            if w == h {
+                "add_wait(self)"
+            } else {
+                "add_wait"
+            }
+        }
+        GOp::RemoveWait(w, h) => {
+            let (w, h) = (did(*w as usize), did(*h as usize));
+            for d in &st.dets {
+                d.graph().remove_wait(w, h);
+            }
+            st.e.remove(&(w, h));
+            "remove_wait"
+        }
+        GOp::RemoveTx(t) => {
+            let t = did(*t as usize);
+            for d in &st.dets {
+                d.graph().remove_transaction(t);
+            }
+            st.e.retain(|e| e.0 != t && e.1 != t);
+            "remove_transaction"
+        }
+        GOp::Clear => {
+            for d in &st.dets {
+                d.graph().clear();
+            }
+            st.e.clear();
+            "clear"
+        }
+        GOp::Advance => {
+            tclock::advance(STEP_MS);
+            st.now += STEP_MS as u64;
+            "clock"
+        }
+        GOp::CleanupStale => {
+            // stale = wait start (as the graph itself reports it) older than the TTL; never on the boundary
+            let stale = g_stale(st.dets[0].graph(), &txs, st.now);
+            for d in &st.dets {
+                d.graph().cleanup_stale_edges(G_TTL_MS);
+            }
+            st.e.retain(|e| !stale.contains(&e.0) && !stale.contains(&e.1));
+            "cleanup_stale_edges"
+        }
+    };
+    for d in &st.dets {
+        compare_edges(d.graph(), &txs, &st.e, name)?;
+    }
+    let idx = |t: u64| (t - 1) as usize;
+    let es: Vec<(usize, usize)> = st.e.iter().map(|(a, b)| (idx(*a), idx(*b))).collect();
+    let rg = RefG::new(st.n, &es);
+    let cyclic = rg.cyclic();
+    let to_idx = |c: &[u64]| -> Vec<usize> { c.iter().map(|t| (*t as usize).wrapping_sub(1)).collect() };
+    let g = st.dets[0].graph();
+    let cycles = g.detect_cycles();
+    if cycles.is_empty() == cyclic {
+        return Err((if cyclic { "c12:detector:detect_cycles-misses-cycle" } else { "c12:detector:detect_cycles-reports-cycle-in-acyclic-graph" }.into(), format!("recorded edges {:?}: reference cyclic={cyclic}, detect_cycles() = {cycles:?}", st.e)));
+    }
+    for c in &cycles {
+        if !rg.is_cycle(&to_idx(c)) {
+            return Err(("c12:detector:reported-cycle-not-a-cycle".into(), format!("recorded edges {:?}: detect_cycles() reports {c:?}", st.e)));
+        }
+    }
+    for (w, h) in pairs(st.n) {
+        let want = rg.reach[h] >> w & 1 == 1;
+        let want = if selftest() && w == 0 { !want } else { want };
+        let got = g.would_create_cycle(did(w), did(h));
+        if got != want {
+            return Err(("c12:detector:would_create_cycle-disagrees-with-reachability".into(), format!("recorded edges {:?}: would_create_cycle({}, {}) = {got}, reference {want}", st.e, did(w), did(h))));
+        }
+    }
+    for (p, det) in POLICIES.iter().zip(&st.dets) {
+        let infos = det.detect();
+        if infos.is_empty() == cyclic {
+            return Err((if cyclic { "c12:detector:detect-misses-deadlock" } else { "c12:detector:detect-reports-deadlock-in-acyclic-graph" }.into(), format!("policy {p:?}, recorded edges {:?}: reference cyclic={cyclic}, detect() returned {} deadlocks", st.e, infos.len())));
+        }
+        for i in &infos {
+            if !rg.is_cycle(&to_idx(&i.cycle)) {
+                return Err(("c12:detector:reported-cycle-not-a-cycle".into(), format!("policy {p:?}, recorded edges {:?}: detect() reports cycle {:?}", st.e, i.cycle)));
+            }
+            let direct = det.select_victim(&i.cycle);
+            if !i.cycle.contains(&i.victim_tx_id) || !i.cycle.contains(&direct) {
+                return Err(("c12:detector:victim-outside-its-cycle".into(), format!("policy {p:?}: victim {} (select_victim: {direct}) not in cycle {:?}", i.victim_tx_id, i.cycle)));
+            }
+        }
+    }
+    Ok(())
+}
+/// everything the public API shows of the graph, times as age in clock steps and as an order
+fn g_canon(st: &GState) -> String {
+    let g = st.dets[0].graph();
+    let txs: Vec<u64> = (0..st.n).map(did).collect();
+    let (f, r) = observed_edges(g, &txs);
+    let starts: Vec<Option<u64>> = txs.iter().map(|t| g.get_wait_start(*t)).collect();
+    let age: Vec<Option<u64>> = starts.iter().map(|s| s.map(|s| ((BASE_MS + st.now).saturating_sub(s) / STEP_MS as u64).min(2))).collect();
+    let rank: Vec<usize> = starts.iter().map(|s| starts.iter().filter(|o| o.is_some() && **o < *s).count()).collect();
+    let prio: Vec<Option<u32>> = txs.iter().map(|t| g.get_priority(*t)).collect();
+    format!("{f:?}|{r:?}|{age:?}|{rank:?}|{prio:?}|{}|{}|{}", g.is_empty(), g.transaction_count(), g.edge_count())
+}
+#[derive(Default)]
+struct GOut {
+    states: u64,
+    cyclic_states: u64,
+    transitions: u64,
+    by_call: BTreeMap<String, u64>,
+    edges_dropped_by_calls: u64,
+    per_level: Vec<u64>,
+    violations: Vec<Viol>,
+    viol_total: u64,
+    deepest: Vec<GOp>,
+}
+fn g_replay(n: usize, max_edges: usize, hist: &[GOp]) -> (GState, Result<(), (String, String)>) {
+    let mut st = g_fresh(n, max_edges);
+    for op in hist {
+        if let Err(e) = g_apply(&mut st, op) {
+            return (st, Err(e));
+        }
+    }
+    (st, Ok(()))
+}
+fn g_op_name(op: &GOp) -> &'static str {
+    match op {
+        GOp::Add(w, h) if w == h => "add_wait(self)",
+        GOp::Add(..) => "add_wait",
+        GOp::RemoveWait(..) => "remove_wait",
+        GOp::RemoveTx(_) => "remove_transaction",
+        GOp::Clear => "clear",
+        GOp::Advance => "clock",
+        GOp::CleanupStale => "cleanup_stale_edges",
+    }
+}
+fn part_g(n: usize, max_edges: usize, depth: usize) -> GOut {
+    let alpha = g_alphabet(n);
+    let mut seen: HashSet<String> = HashSet::new();
+    seen.insert(g_canon(&g_fresh(n, max_edges)));
+    let mut frontier: Vec<Vec<GOp>> = vec![vec![]];
+    let mut out = GOut { states: 1, ..Default::default() };
+    for _ in 0..depth {
+        // (history, canonical state, verdict, edges before, edges after, cyclic)
+        type R = (Vec<GOp>, String, Option<(String, String)>, usize, usize, bool);
+        let results: Vec<R> = frontier
+            .par_iter()
+            .flat_map_iter(|hist| {
+                let mut v: Vec<R> = vec![];
+                for op in &alpha {
+                    let (mut st, r) = g_replay(n, max_edges, hist);
+                    assert!(r.is_ok(), "frontier history must replay");
+                    let before = st.e.len();
+                    let r = g_apply(&mut st, op);
+                    let mut h2 = hist.clone();
+                    h2.push(op.clone());
+                    match r {
+                        Ok(()) => {
+                            let cyc = !st.dets[0].graph().detect_cycles().is_empty();
+                            v.push((h2, g_canon(&st), None, before, st.e.len(), cyc));
+                        }
+                        Err(e) => v.push((h2, String::new(), Some(e), 0, 0, false)),
+                    }
+                }
+                v
+            })
+            .collect();
+        let mut next = vec![];
+        for (hist, key, verdict, before, after, cyc) in results {
+            out.transitions += 1;
+            *out.by_call.entry(g_op_name(hist.last().expect("non-empty")).to_string()).or_default() += 1;
+            if let Some((sig, msg)) = verdict {
+                out.viol_total += 1;
+                if out.violations.iter().filter(|x| x.0 == sig).count() < 3 {
+                    out.violations.push((sig, format!("after {hist:?}: {msg}"), json!({"part": "G", "n": n, "max_edges_per_tx": max_edges, "ops": hist, "tx_id_of_index": "index+1"})));
+                }
+                continue;
+            }
+            out.edges_dropped_by_calls += before.saturating_sub(after) as u64;
+            if seen.insert(key) {
+                out.states += 1;
+                out.cyclic_states += u64::from(cyc);
+                out.deepest = hist.clone();
+                next.push(hist);
+            }
+        }
+        out.per_level.push(next.len() as u64);
+        frontier = next;
+    }
+    out
+}
+
+// ------------------------------------------------------------------------------------------------
 // shared: the sequential lock table (reference for parts S and T)
 // ------------------------------------------------------------------------------------------------
 const TIMEOUT_MS: u64 = 1000;
@@ -436,6 +717,9 @@ fn check_lm_obs(lm: &LockManager, rf: &RefTable, txs: &[u64]) -> Result<u64, (St
     let mut stale = 0;
     for &t in txs {
         let idx: BTreeSet<String> = lm.keys_for_transaction(t).into_iter().collect();
+        if lm.lock_count_for_transaction(t) != lm.keys_for_transaction(t).len() {
+            return Err(("c12:table:lock_count_for_transaction-disagrees-with-keys_for_transaction".into(), format!("tx {t}: lock_count_for_transaction = {}, keys_for_transaction = {:?}", lm.lock_count_for_transaction(t), lm.keys_for_transaction(t))));
+        }
         for (k, (owner, _)) in &want {
             if *owner == t && !idx.contains(k) {
                 return Err(("c12:table:tx-index-misses-held-key".into(), format!("tx {t} holds {k} but keys_for_transaction({t}) = {idx:?} (release({t}) would leave it behind)")));
@@ -477,9 +761,20 @@ enum SOp {
     Advance,
     /// to_serializable -> bitcode -> from_serializable
     SerRestore,
+    /// WaitForGraph::add_wait(waiter, holder, None) on the graph shared with the lock manager
+    AddWait(u8, u8),
+    /// WaitForGraph::remove_wait(waiter, holder)
+    RemoveWait(u8, u8),
+    /// WaitForGraph::remove_transaction(tx)
+    RemoveTx(u8),
+    /// WaitForGraph::clear()
+    GClear,
+    /// WaitForGraph::cleanup_stale_edges(1000)
+    GCleanupStale,
 }
 const STX: [u64; 3] = [1, 2, 3];
-fn s_alphabet() -> Vec<SOp> {
+/// `graph_calls`: with the direct WaitForGraph calls on the shared graph
+fn s_alphabet(graph_calls: bool) -> Vec<SOp> {
     let mut v = vec![];
     for t in 0..3u8 {
         for k in 0..3u8 {
@@ -501,6 +796,19 @@ fn s_alphabet() -> Vec<SOp> {
         }
     }
     v.extend([SOp::Advance, SOp::CleanupWC, SOp::Cleanup, SOp::SerRestore]);
+    if !graph_calls {
+        return v;
+    }
+    for (w, h) in pairs(3) {
+        v.push(SOp::RemoveWait(w as u8, h as u8));
+    }
+    for t in 0..3u8 {
+        v.push(SOp::RemoveTx(t));
+    }
+    for (w, h) in pairs(3) {
+        v.push(SOp::AddWait(w as u8, h as u8));
+    }
+    v.extend([SOp::GCleanupStale, SOp::GClear]);
     v
 }
 struct SeqState {
@@ -530,13 +838,47 @@ fn s_apply(st: &mut SeqState, op: &SOp) -> Result<bool, (String, String)> {
     let mut released_tx: Option<u64> = None;
     let mut released_handle: Option<u64> = None;
     let mut cleaned = false;
+    // the pure graph calls: the recorded relation afterwards = set algebra on the one before
+    let mut graph_call: Option<(&str, BTreeSet<(u64, u64)>)> = None;
+    let edges_before = observed_edges(&st.g, &STX).0;
     match op {
+        SOp::AddWait(w, h) => {
+            let (w, h) = (STX[*w as usize], STX[*h as usize]);
+            st.g.add_wait(w, h, None);
+            let mut e = edges_before;
+            e.insert((w, h));
+            graph_call = Some(("add_wait", e));
+        }
+        SOp::RemoveWait(w, h) => {
+            let (w, h) = (STX[*w as usize], STX[*h as usize]);
+            st.g.remove_wait(w, h);
+            let mut e = edges_before;
+            e.remove(&(w, h));
+            graph_call = Some(("remove_wait", e));
+        }
+        SOp::RemoveTx(t) => {
+            let tx = STX[*t as usize];
+            st.g.remove_transaction(tx);
+            graph_call = Some(("remove_transaction", edges_before.into_iter().filter(|e| e.0 != tx && e.1 != tx).collect()));
+            finished.push(tx);
+        }
+        SOp::GClear => {
+            st.g.clear();
+            graph_call = Some(("clear", BTreeSet::new()));
+        }
+        SOp::GCleanupStale => {
+            let stale = g_stale(&st.g, &STX, st.rf.now);
+            st.g.cleanup_stale_edges(G_TTL_MS);
+            graph_call = Some(("cleanup_stale_edges", edges_before.into_iter().filter(|e| !stale.contains(&e.0) && !stale.contains(&e.1)).collect()));
+            finished.extend(stale);
+        }
         SOp::Lock(t, k) | SOp::LockWT(t, k) => {
             let tx = STX[*t as usize];
             let keys = keyset(*k);
             let bl = st.rf.blockers(tx, &keys);
             let wt = matches!(op, SOp::LockWT(..));
-            let res: Result<u64, (u64, Option<Vec<String>>)> = if wt { st.lm.try_lock_with_wait_tracking(tx, &keys, &st.g, None).map_err(|w| (w.blocking_tx_id, Some(w.conflicting_keys))) } else { st.lm.try_lock(tx, &keys).map_err(|h| (h, None)) };
+            // (the first transaction passes a priority, the others none)
+            let res: Result<u64, (u64, Option<Vec<String>>)> = if wt { st.lm.try_lock_with_wait_tracking(tx, &keys, &st.g, if *t == 0 { Some(1) } else { None }).map_err(|w| (w.blocking_tx_id, Some(w.conflicting_keys))) } else { st.lm.try_lock(tx, &keys).map_err(|h| (h, None)) };
             match res {
                 Ok(h) => {
                     if !bl.is_empty() {
@@ -631,6 +973,9 @@ fn s_apply(st: &mut SeqState, op: &SOp) -> Result<bool, (String, String)> {
     if cleaned && snap.locks().len() != st.rf.live_map().len() {
         return Err(("c12:table:expired-lock-left-behind-by-cleanup".into(), format!("after cleanup {} entries are stored, {} keys are held", snap.locks().len(), st.rf.live_map().len())));
     }
+    if let Some((name, want)) = graph_call {
+        compare_edges(&st.g, &STX, &want, name)?;
+    }
     check_graph_obs(&st.g, &STX)?;
     for tx in finished {
         absent_from_graph(&st.g, tx, &STX)?;
@@ -655,7 +1000,7 @@ fn s_canon(st: &SeqState) -> String {
     entries.sort();
     let idx: Vec<Vec<String>> = STX.iter().map(|t| st.lm.keys_for_transaction(*t)).collect();
     let (f, r) = observed_edges(&st.g, &STX);
-    let ws: Vec<bool> = STX.iter().map(|t| st.g.get_wait_start(*t).is_some()).collect();
+    let ws: Vec<Option<u64>> = STX.iter().map(|t| st.g.get_wait_start(*t).map(|s| ((BASE_MS + st.rf.now).saturating_sub(s) / STEP_MS as u64).min(2))).collect();
     let have: Vec<usize> = st.handles.iter().map(|h| h.len().min(2)).collect();
     format!("{entries:?}|{idx:?}|{f:?}|{r:?}|{ws:?}|{have:?}")
 }
@@ -682,8 +1027,8 @@ fn s_replay(hist: &[SOp]) -> (SeqState, Result<bool, (String, String)>) {
     }
     (st, Ok(true))
 }
-fn part_s(depth: usize) -> SeqOut {
-    let alpha = s_alphabet();
+fn part_s(depth: usize, graph_calls: bool) -> SeqOut {
+    let alpha = s_alphabet(graph_calls);
     let mut seen: HashSet<String> = HashSet::new();
     seen.insert(s_canon(&s_fresh()));
     let mut frontier: Vec<Vec<SOp>> = vec![vec![]];
@@ -781,6 +1126,10 @@ enum KOp {
     Timeout,
     /// release_orphaned_locks(now + 1)
     Orphan,
+    /// complete_commit(tx) — part W only, enabled while the transaction is Committing
+    CompleteCommit(u8),
+    /// complete_abort(tx) — part W only, enabled while the transaction is Aborting
+    CompleteAbort(u8),
 }
 /// transaction 0 spans shards 0 and 1, transaction 1 only shard 0
 const KPARTS: [&[usize]; 2] = [&[0, 1], &[0]];
@@ -820,24 +1169,53 @@ struct KState {
     conflicts: u64,
     spurious_refusals: u64,
     finishes: u64,
+    /// part W: the coordinator writes a real TxWal (size-capped, no rotation)
+    wal: bool,
+    /// part W: finishing calls that returned an error (the transaction may stay pending, with its locks)
+    failed_finishes: u64,
+    /// part W: the last finishing call of each transaction that returned an error
+    last_failed: [Option<&'static str>; 2],
 }
 fn k_fresh() -> KState {
+    k_fresh_with(None)
+}
+/// `wal`: Some((file, size cap in bytes)) = coordinator built `.with_wal(..)`; appends beyond the cap fail
+fn k_fresh_with(wal: Option<(&std::path::Path, u64)>) -> KState {
     tclock::reset();
-    let co = new_coordinator();
+    let mut co = new_coordinator();
+    if let Some((path, cap)) = wal {
+        let _ = std::fs::remove_file(path);
+        let w = TxWal::open_with_config(path, WalConfig { max_size_bytes: cap, auto_rotate: false, pre_check_space: false, ..WalConfig::default() }).expect("open TxWal");
+        co = co.with_wal(w);
+    }
     let a = co.begin(&"n1".to_string(), KPARTS[0]).expect("begin").tx_id;
     let b = co.begin(&"n1".to_string(), KPARTS[1]).expect("begin").tx_id;
-    KState { co, ids: [a, b], flight: BTreeMap::new(), prepared: BTreeSet::new(), grants: BTreeMap::new(), finished: [false; 2], held: BTreeMap::new(), now: 0, yes: 0, conflicts: 0, spurious_refusals: 0, finishes: 0 }
+    KState { co, ids: [a, b], flight: BTreeMap::new(), prepared: BTreeSet::new(), grants: BTreeMap::new(), finished: [false; 2], held: BTreeMap::new(), now: 0, yes: 0, conflicts: 0, spurious_refusals: 0, finishes: 0, wal: wal.is_some(), failed_finishes: 0, last_failed: [None; 2] }
 }
 fn k_finish(st: &mut KState, t: u8) {
     st.finished[t as usize] = true;
     st.finishes += 1;
     st.held.retain(|_, l| *l != t);
 }
+fn k_op_name(op: &KOp) -> &'static str {
+    match op {
+        KOp::Prep(..) => "handle_prepare",
+        KOp::Vote(..) => "record_vote",
+        KOp::Commit(_) => "commit",
+        KOp::Abort(_) => "abort",
+        KOp::Timeout => "cleanup_timeouts",
+        KOp::Orphan => "release_orphaned_locks",
+        KOp::CompleteCommit(_) => "complete_commit",
+        KOp::CompleteAbort(_) => "complete_abort",
+    }
+}
 fn k_apply(st: &mut KState, op: &KOp) -> Result<bool, (String, String)> {
     let label = |st: &KState, id: u64| st.ids.iter().position(|x| *x == id).map_or("?".to_string(), |i| ["A", "B"][i].to_string());
+    let mut failed = false;
     match op {
         KOp::Prep(t, s, k) => {
-            if st.finished[*t as usize] || st.prepared.contains(&(*t, *s)) {
+            // (a prepare for a transaction the coordinator does not know is outside the statement)
+            if st.finished[*t as usize] || st.prepared.contains(&(*t, *s)) || (st.wal && st.co.get(st.ids[*t as usize]).is_none()) {
                 return Ok(false);
             }
             st.prepared.insert((*t, *s));
@@ -878,13 +1256,33 @@ fn k_apply(st: &mut KState, op: &KOp) -> Result<bool, (String, String)> {
                 }
             }
         }
-        KOp::Commit(t) | KOp::Abort(t) => {
+        KOp::Commit(t) | KOp::Abort(t) | KOp::CompleteCommit(t) | KOp::CompleteAbort(t) => {
             if st.finished[*t as usize] {
                 return Ok(false);
             }
-            let ok = if matches!(op, KOp::Commit(_)) { st.co.commit(st.ids[*t as usize]).is_ok() } else { st.co.abort(st.ids[*t as usize], "client abort").is_ok() };
-            if ok {
+            let id = st.ids[*t as usize];
+            let phase = st.co.get(id).map(|x| x.phase);
+            let res = match op {
+                KOp::Commit(_) => st.co.commit(id),
+                KOp::Abort(_) => st.co.abort(id, "client abort"),
+                KOp::CompleteCommit(_) if st.wal && phase == Some(TxPhase::Committing) => st.co.complete_commit(id),
+                KOp::CompleteAbort(_) if st.wal && phase == Some(TxPhase::Aborting) => st.co.complete_abort(id),
+                _ => return Ok(false),
+            };
+            if res.is_ok() {
                 k_finish(st, *t);
+            } else {
+                // Part W: an attempt that fails on the WAL may leave the transaction pending with its
+                // locks (it can be retried) or may have released them: the reference follows the real
+                // table for this transaction's keys. What it must not do is checked in k_check: forget
+                // the transaction while something is still recorded under its id.
+                failed = true;
+                st.failed_finishes += 1;
+                st.last_failed[*t as usize] = Some(k_op_name(op));
+                if st.wal {
+                    let (lm, tl) = (st.co.lock_manager(), *t);
+                    st.held.retain(|k, l| *l != tl || lm.lock_holder(k) == Some(id));
+                }
             }
         }
         KOp::Timeout => {
@@ -904,7 +1302,12 @@ fn k_apply(st: &mut KState, op: &KOp) -> Result<bool, (String, String)> {
             st.co.release_orphaned_locks(BASE_MS + st.now + 1);
         }
     }
-    // --- what must hold now
+    k_check(st, &format!("{}{}", if failed { "failed-" } else { "" }, k_op_name(op)))?;
+    Ok(true)
+}
+/// what must hold after every coordinator call (`after` names the call for the signatures)
+fn k_check(st: &KState, after: &str) -> Result<(), (String, String)> {
+    let label = |st: &KState, id: u64| st.ids.iter().position(|x| *x == id).map_or("?".to_string(), |i| ["A", "B"][i].to_string());
     let snap = st.co.lock_manager().to_serializable();
     for t in 0..2u8 {
         if !st.finished[t as usize] {
@@ -929,7 +1332,17 @@ fn k_apply(st: &mut KState, op: &KOp) -> Result<bool, (String, String)> {
             absent_from_graph(st.co.wait_graph(), st.ids[t as usize], &st.ids).map_err(|(s, m)| (s.replace("c12:graph:", "c12:coord:wait-graph:"), st.ids.iter().enumerate().fold(m, |m, (i, id)| m.replace(&id.to_string(), ["A", "B"][i]))))?;
         }
     }
-    Ok(true)
+    // Whatever the call returned: nothing may be recorded under the id of a transaction the coordinator
+    // no longer knows (nobody could ever release it). All runs stay below the 30 s lock timeout.
+    let known = |id: u64| st.co.get(id).is_some();
+    if let Some((k, e)) = snap.locks().iter().find(|(_, e)| !known(e.tx_id)) {
+        return Err((format!("c12:coord:forgotten-transaction-still-recorded:after-{after}"), format!("after {after}: key {k} is locked by transaction {} (handle {}), which coordinator.get() no longer knows; keys_for_transaction = {:?}", label(st, e.tx_id), e.lock_handle, st.co.lock_manager().keys_for_transaction(e.tx_id))));
+    }
+    let (fwd, rev) = observed_edges(st.co.wait_graph(), &st.ids);
+    if let Some((a, b)) = fwd.iter().chain(rev.iter()).find(|(a, b)| !known(*a) || !known(*b)) {
+        return Err((format!("c12:coord:forgotten-transaction-still-recorded:after-{after}"), format!("after {after}: the wait-for graph records {} -> {}, and coordinator.get() no longer knows {}", label(st, *a), label(st, *b), if known(*a) { label(st, *b) } else { label(st, *a) })));
+    }
+    Ok(())
 }
 #[derive(Default)]
 struct KOut {
@@ -1053,6 +1466,303 @@ fn part_k(depth: usize) -> KOut {
         })
         .reduce(KOut::default, KOut::merge);
     top.merge(rest)
+}
+
+// ------------------------------------------------------------------------------------------------
+// Part W — the coordinator with a real TxWal; every WAL append of every operation fails in turn
+// ------------------------------------------------------------------------------------------------
+const W_NO_CAP: u64 = 1 << 40;
+fn w_alphabet() -> Vec<KOp> {
+    let mut v = k_alphabet();
+    for t in 0..2u8 {
+        v.push(KOp::CompleteCommit(t));
+        v.push(KOp::CompleteAbort(t));
+    }
+    v
+}
+fn w_dir() -> std::path::PathBuf {
+    let scratch = std::env::var("VERIF_SCRATCH").unwrap_or_else(|_| "/dev/shm".into());
+    std::path::PathBuf::from(scratch).join(format!("c12-wal-{}", std::process::id()))
+}
+/// the WAL file of the calling thread
+fn w_path() -> std::path::PathBuf {
+    thread_local! {
+        static P: std::path::PathBuf = {
+            let d = w_dir();
+            std::fs::create_dir_all(&d).expect("scratch dir for the WAL files");
+            d.join(format!("{}.wal", rayon::current_thread_index().map_or("main".to_string(), |i| i.to_string())))
+        };
+    }
+    P.with(Clone::clone)
+}
+/// Lock handles are written into the WAL and bitcode packs integers by magnitude: keep every handle of
+/// this process in one width class (2^16 .. 2^32) so that a record has the same size in every run.
+fn w_prepare() {
+    let lm = LockManager::new();
+    while tensor_chain::distributed_tx::lock_handle_current() < 70_000 {
+        let _ = lm.try_lock(1, &[]);
+    }
+}
+fn w_file_len(path: &std::path::Path) -> u64 {
+    std::fs::metadata(path).map_or(0, |m| m.len())
+}
+/// (end offset, kind) of every complete `[len][crc][payload]` record of the file
+fn w_records(path: &std::path::Path) -> Vec<(u64, String)> {
+    let bytes = std::fs::read(path).unwrap_or_default();
+    let (mut pos, mut v) = (0usize, vec![]);
+    while pos + 8 <= bytes.len() {
+        let len = u32::from_le_bytes([bytes[pos], bytes[pos + 1], bytes[pos + 2], bytes[pos + 3]]) as usize;
+        if pos + 8 + len > bytes.len() {
+            break;
+        }
+        let name = match bitcode::deserialize::<TxWalEntry>(&bytes[pos + 8..pos + 8 + len]) {
+            Ok(TxWalEntry::PhaseChange { to, .. }) => format!("PhaseChange->{to:?}"),
+            Ok(TxWalEntry::TxComplete { outcome, .. }) => format!("TxComplete({outcome:?})"),
+            Ok(TxWalEntry::PrepareVote { vote, .. }) => format!("PrepareVote({})", format!("{vote:?}").split([' ', '{']).next().unwrap_or("")),
+            Ok(other) => format!("{other:?}").split([' ', '{']).next().unwrap_or("").to_string(),
+            Err(_) => "?".into(),
+        };
+        pos += 8 + len;
+        v.push((pos as u64, name));
+    }
+    v
+}
+struct WRun {
+    st: KState,
+    verdict: Result<bool, (String, String)>,
+    /// WAL file size after the two begins and after every completed operation
+    sizes: Vec<u64>,
+}
+fn w_run(hist: &[KOp], cap: u64) -> WRun {
+    let path = w_path();
+    let mut st = k_fresh_with(Some((&path, cap)));
+    let mut sizes = vec![w_file_len(&path)];
+    for op in hist {
+        match k_apply(&mut st, op) {
+            Ok(true) => sizes.push(w_file_len(&path)),
+            other => return WRun { st, verdict: other, sizes },
+        }
+    }
+    WRun { st, verdict: Ok(true), sizes }
+}
+/// The operator makes room in the WAL and finishes whatever is still pending (the failed call again;
+/// complete_commit for a transaction left Committing): that must work and leave nothing behind.
+/// Returns the retried calls.
+fn w_epilogue(st: &mut KState) -> Result<Vec<String>, (String, String)> {
+    let mut calls = vec![];
+    for t in 0..2u8 {
+        if st.finished[t as usize] {
+            continue;
+        }
+        // (before every retried call: the cap may be too small for the records of two calls)
+        st.co.truncate_wal().expect("truncate_wal on the scratch file system");
+        let id = st.ids[t as usize];
+        // unknown and not finished by a successful call: k_check has shown that nothing is recorded under its id
+        let Some(tx) = st.co.get(id) else { continue };
+        let failed = st.last_failed[t as usize];
+        let (call, res) = match (tx.phase, failed) {
+            (TxPhase::Committing, _) => ("complete_commit", st.co.complete_commit(id)),
+            (TxPhase::Prepared, Some("commit")) => ("commit", st.co.commit(id)),
+            _ => ("abort", st.co.abort(id, "retry after the WAL has room again")),
+        };
+        if let Err(e) = res {
+            return Err((format!("c12:coord:wal-fault:retry-fails:{call}-after-failed-{}", failed.unwrap_or("nothing")), format!("transaction {} is still pending in phase {:?} (last failed finishing call: {failed:?}); after truncate_wal() {call} returns {e:?}: its locks and wait edges cannot be released", ["A", "B"][t as usize], tx.phase)));
+        }
+        calls.push(format!("{call}-after-failed-{}", failed.unwrap_or("nothing")));
+        k_finish(st, t);
+        k_check(st, &format!("retry-{call}"))?;
+    }
+    Ok(calls)
+}
+#[derive(Clone, Debug, Serialize, Deserialize)]
+struct WFault {
+    ops: Vec<KOp>,
+    wal_cap_bytes: u64,
+    /// "<call>#<n-th record of the call>:<record kind>:<all later appends fail | only this size and larger>"
+    first_fault: String,
+}
+#[derive(Default)]
+struct WOut {
+    fault_free_sequences: u64,
+    faulty_runs: u64,
+    steps: u64,
+    first_fault_at: BTreeMap<String, u64>,
+    failed_finishing_calls: u64,
+    retried_calls: BTreeMap<String, u64>,
+    forgotten_unfinished: u64,
+    misaligned: u64,
+    distinct_end_states: BTreeSet<String>,
+    violations: Vec<Viol>,
+    viol_total: u64,
+    by_signature: BTreeMap<String, u64>,
+    sample: Option<Value>,
+}
+impl WOut {
+    fn merge(mut self, o: WOut) -> WOut {
+        self.fault_free_sequences += o.fault_free_sequences;
+        self.faulty_runs += o.faulty_runs;
+        self.steps += o.steps;
+        self.failed_finishing_calls += o.failed_finishing_calls;
+        self.forgotten_unfinished += o.forgotten_unfinished;
+        self.misaligned += o.misaligned;
+        self.viol_total += o.viol_total;
+        for (k, v) in o.first_fault_at {
+            *self.first_fault_at.entry(k).or_default() += v;
+        }
+        for (k, v) in o.retried_calls {
+            *self.retried_calls.entry(k).or_default() += v;
+        }
+        for (k, v) in o.by_signature {
+            *self.by_signature.entry(k).or_default() += v;
+        }
+        self.distinct_end_states.extend(o.distinct_end_states);
+        self.violations.extend(o.violations);
+        self.violations.sort_by_key(|v| (v.0.clone(), v.2["ops"].as_array().map_or(0, Vec::len), v.2["wal_cap_bytes"].as_u64()));
+        let mut kept: Vec<Viol> = vec![];
+        for v in std::mem::take(&mut self.violations) {
+            if kept.iter().filter(|x| x.0 == v.0).count() < 3 {
+                kept.push(v);
+            }
+        }
+        self.violations = kept;
+        if let Some(x) = o.sample {
+            self.offer_sample(x);
+        }
+        self
+    }
+    /// keeps the shortest (then lexicographically first) sample: independent of the work partition
+    fn offer_sample(&mut self, x: Value) {
+        let key = |v: &Value| (v["ops"].as_array().map_or(0, Vec::len), v.to_string());
+        if self.sample.as_ref().is_none_or(|cur| key(&x) < key(cur)) {
+            self.sample = Some(x);
+        }
+    }
+    fn bad(&mut self, sig: String, msg: String, hist: &[KOp], cap: u64, fault: &str) {
+        self.viol_total += 1;
+        *self.by_signature.entry(sig.clone()).or_default() += 1;
+        let how = if cap == W_NO_CAP { "no WAL fault".to_string() } else { format!("WAL capped at {cap} bytes, first failing append {fault}") };
+        self.violations.push((sig, format!("after {hist:?} ({how}): {msg}"), json!({"part": "W", "ops": hist, "wal_cap_bytes": cap, "first_fault": fault, "transactions": "0 = A (shards 0,1), 1 = B (shard 0); key sets 0={a} 1={b} 2={a,b}"})));
+        *self = std::mem::take(self).merge(WOut::default());
+    }
+    /// bookkeeping + retry epilogue of one completed run; false = violation (do not extend)
+    fn completed(&mut self, mut run: WRun, hist: &[KOp], cap: u64, fault: &str) -> bool {
+        self.steps += hist.len() as u64;
+        self.distinct_end_states.insert(format!("{}|{:?}", k_end_state(&run.st), run.st.last_failed));
+        self.forgotten_unfinished += (0..2).filter(|t| !run.st.finished[*t] && run.st.co.get(run.st.ids[*t]).is_none()).count() as u64;
+        match w_epilogue(&mut run.st) {
+            Ok(calls) => {
+                for c in calls {
+                    *self.retried_calls.entry(c).or_default() += 1;
+                }
+                true
+            }
+            Err((sig, msg)) => {
+                self.bad(sig, msg, hist, cap, fault);
+                false
+            }
+        }
+    }
+}
+/// the fault-free tree: every sequence on a coordinator with an uncapped WAL; collects the fault plans
+fn w_dfs_free(hist: &mut Vec<KOp>, depth: usize, alpha: &[KOp], out: &mut WOut, plans: &mut Vec<WFault>) {
+    if hist.len() == depth {
+        return;
+    }
+    for op in alpha {
+        hist.push(op.clone());
+        let run = w_run(hist, W_NO_CAP);
+        match run.verdict.clone() {
+            Ok(false) => {}
+            Err((sig, msg)) => {
+                out.fault_free_sequences += 1;
+                out.bad(sig, msg, hist, W_NO_CAP, "");
+            }
+            Ok(true) => {
+                out.fault_free_sequences += 1;
+                // the records this last call appended: each of them fails in turn
+                let records = w_records(&w_path());
+                let from = run.sizes[run.sizes.len() - 2];
+                let mut prev = from;
+                for (j, (end, kind)) in records.iter().filter(|r| r.0 > from).enumerate() {
+                    for (cap, how) in [(prev, "all later appends fail"), (end - 1, "only appends of this size and larger fail")] {
+                        plans.push(WFault { ops: hist.clone(), wal_cap_bytes: cap, first_fault: format!("{}#{}:{kind}:{how}", k_op_name(op), j + 1) });
+                    }
+                    prev = *end;
+                }
+                if out.completed(run, hist, W_NO_CAP, "") {
+                    w_dfs_free(hist, depth, alpha, out, plans);
+                }
+            }
+        }
+        hist.pop();
+    }
+}
+/// one faulty run and, below it, every continuation under the same cap
+fn w_dfs_faulty(hist: &mut Vec<KOp>, plan: &WFault, depth: usize, alpha: &[KOp], out: &mut WOut, root_sizes: Option<&[u64]>) {
+    let run = w_run(hist, plan.wal_cap_bytes);
+    if let Some(free) = root_sizes {
+        // the prefix ran as in the fault-free run and the last call wrote less than there
+        let n = hist.len();
+        let aligned = matches!(run.verdict, Ok(true) | Err(_)) && run.sizes.len() >= n && run.sizes[..n] == free[..n] && run.sizes.get(n).is_none_or(|s| *s < free[n]);
+        if !aligned {
+            out.misaligned += 1;
+        }
+    }
+    match run.verdict.clone() {
+        Ok(false) => {}
+        Err((sig, msg)) => {
+            out.faulty_runs += 1;
+            out.bad(sig, msg, hist, plan.wal_cap_bytes, &plan.first_fault);
+        }
+        Ok(true) => {
+            out.faulty_runs += 1;
+            if root_sizes.is_some() {
+                // the call succeeded in the fault-free run (it wrote records); here it returned an error
+                out.failed_finishing_calls += u64::from(matches!(hist.last(), Some(KOp::Commit(t) | KOp::Abort(t)) if !run.st.finished[*t as usize]));
+            }
+            if root_sizes.is_some() && matches!(hist.last(), Some(KOp::Commit(t) | KOp::Abort(t)) if !run.st.finished[*t as usize]) && hist.len() >= 2 {
+                out.offer_sample(json!({"part": "W", "ops": hist.clone(), "wal_cap_bytes": plan.wal_cap_bytes, "first_fault": plan.first_fault}));
+            }
+            if out.completed(run, hist, plan.wal_cap_bytes, &plan.first_fault) && hist.len() < depth {
+                for op in alpha {
+                    hist.push(op.clone());
+                    w_dfs_faulty(hist, plan, depth, alpha, out, None);
+                    hist.pop();
+                }
+            }
+        }
+    }
+}
+fn part_w(depth: usize) -> WOut {
+    w_prepare();
+    let alpha = w_alphabet();
+    // phase 1: the fault-free tree, partitioned by the first operation
+    let (free, plans): (WOut, Vec<WFault>) = alpha
+        .par_iter()
+        .map(|first| {
+            let (mut out, mut plans) = (WOut::default(), vec![]);
+            // w_dfs_free extends a prefix that is known to be enabled; run the first operation through it
+            w_dfs_free(&mut vec![], 1, std::slice::from_ref(first), &mut out, &mut plans);
+            if out.fault_free_sequences == 1 && out.viol_total == 0 {
+                let mut sub = WOut::default();
+                w_dfs_free(&mut vec![first.clone()], depth, &alpha, &mut sub, &mut plans);
+                out = out.merge(sub);
+            }
+            (out, plans)
+        })
+        .reduce(|| (WOut::default(), vec![]), |a, b| (a.0.merge(b.0), [a.1, b.1].concat()));
+    // phase 2: every fault plan with all its continuations
+    let faulty = plans
+        .par_iter()
+        .fold(WOut::default, |mut out, plan| {
+            let free_sizes = w_run(&plan.ops, W_NO_CAP).sizes;
+            *out.first_fault_at.entry(plan.first_fault.rsplit_once(':').map_or(plan.first_fault.clone(), |x| x.0.to_string())).or_default() += 1;
+            w_dfs_faulty(&mut plan.ops.clone(), plan, depth, &alpha, &mut out, Some(&free_sizes));
+            out
+        })
+        .reduce(WOut::default, WOut::merge);
+    let _ = std::fs::remove_dir_all(w_dir());
+    free.merge(faulty)
 }
 
 // ------------------------------------------------------------------------------------------------
@@ -1638,6 +2348,25 @@ fn replay(rep: &mut Report, path: &str) {
                 rep.violation(s, m, r.clone());
             }
         }
+        "G" => {
+            let ops: Vec<GOp> = serde_json::from_value(r["ops"].clone()).unwrap();
+            if let (_, Err((s, m))) = g_replay(r["n"].as_u64().unwrap() as usize, r["max_edges_per_tx"].as_u64().unwrap() as usize, &ops) {
+                rep.violation(s, m, r.clone());
+            }
+        }
+        "W" => {
+            w_prepare();
+            let ops: Vec<KOp> = serde_json::from_value(r["ops"].clone()).unwrap();
+            let mut run = w_run(&ops, r["wal_cap_bytes"].as_u64().unwrap());
+            let verdict = match run.verdict.clone() {
+                Err(e) => Err(e),
+                Ok(_) => w_epilogue(&mut run.st).map(|_| ()),
+            };
+            if let Err((s, m)) = verdict {
+                rep.violation(s, m, r.clone());
+            }
+            let _ = std::fs::remove_dir_all(w_dir());
+        }
         "K" => {
             let ops: Vec<KOp> = serde_json::from_value(r["ops"].clone()).unwrap();
             let mut st = k_fresh();
@@ -1687,18 +2416,28 @@ fn main() {
     }
     let thorough = rep.thorough();
     let bound = if thorough { 3 } else { 2 };
-    let (s_depth, k_depth) = if thorough { (7, 6) } else { (5, 5) };
+    let (s_depth, k_depth, w_depth) = if thorough { (6, 6, 5) } else { (5, 5, 4) };
+    // G: (transactions, max_edges_per_tx, depth)
+    let g_cfgs: Vec<(usize, usize, usize)> = if thorough { vec![(3, 50, 12), (3, 1, 12), (4, 50, 5), (4, 2, 5)] } else { vec![(3, 50, 6), (3, 1, 6), (4, 50, 4), (4, 2, 4)] };
     let max5 = if thorough { 20 } else { 6 };
     rep.rule(&format!(
         "D: every digraph without self-loops on 2..4 transactions and every one on 5 transactions with <= {max5} edges (20 = all 2^20), each built through add_wait in canonical and reversed insertion order (+ rings / paths / two rings with every single chord on 6-8 transactions, not exhaustive): detect_cycles non-empty <=> transitive closure has a cycle, every reported cycle is a directed cycle, would_create_cycle <=> reachability for every ordered pair, DeadlockDetector::detect non-empty <=> cyclic and victim in its cycle for 4 policies. \
-         S: BFS over every sequence of <= {s_depth} operations of {{try_lock, try_lock_with_wait_tracking (3 txs x key sets a, b, ab), release, release_by_handle[_with_wait_cleanup] (latest/previous handle), cleanup_expired[_with_wait_cleanup], clock+600ms (timeout 1000ms), to_serializable->bitcode->from_serializable}} replayed on a fresh real LockManager+WaitForGraph, dedup on the real state modulo handle renaming/time shift; after every step the sequential lock table. \
+         G: BFS over every sequence of WaitForGraph mutations {{add_wait (every ordered pair, + self-waits), remove_wait (every ordered pair), remove_transaction, clear, clock+600ms, cleanup_stale_edges(1000ms)}} on the graphs of 4 real DeadlockDetectors (one per victim policy), for (transactions, max_edges_per_tx, depth) in {g_cfgs:?}, dedup on everything the public API shows (edges, reverse edges, wait-start age/order, priorities, counts); after every step waiting_for = waiting_on = edge_count = the edge set recorded by the calls (self-wait ignored, edge beyond max_edges_per_tx dropped, remove_wait removes one edge, remove_transaction/cleanup_stale_edges every edge of the transaction, clear all), detect_cycles/would_create_cycle/detect/select_victim against the transitive closure of that set. \
+         S: BFS over every sequence of <= {s_depth} operations of {{try_lock, try_lock_with_wait_tracking (3 txs x key sets a, b, ab), release, release_by_handle[_with_wait_cleanup] (latest/previous handle), cleanup_expired[_with_wait_cleanup], clock+600ms (timeout 1000ms), to_serializable->bitcode->from_serializable, and on the shared graph add_wait / remove_wait (every ordered pair), remove_transaction, clear, cleanup_stale_edges(1000ms)}} replayed on a fresh real LockManager+WaitForGraph (thorough: additionally the lock-manager calls alone one level deeper), dedup on the real state modulo handle renaming/time shift; after every step the sequential lock table, and after a graph call the recorded edges = set algebra on the edges before it. \
          K: every sequence of <= {k_depth} coordinator operations {{handle_prepare, record_vote of the in-flight vote, commit, abort, clock+6s & cleanup_timeouts, release_orphaned_locks}} on 2 transactions (A: shards 0,1; B: shard 0) and keys a,b. \
-         T: for each program (2-3 threads on one LockManager+WaitForGraph or one DistributedTxCoordinator) every schedule with <= {bound} preemptions (scheduling point = every parking_lot lock acquisition); LockManager level: brute-force linearizability against the sequential lock table + quiescent state; coordinator level: a finished transaction owns no key it was granted before finishing and is neither waiter nor holder in the wait-for graph, no grant while provably held, edges/reverse_edges mirror, detect_cycles <=> recorded edges, no deadlock. non-trivial = cyclic graphs + distinct sequential states + sequences with a finish + schedules with >= 1 preemption"
+         W: the same on a coordinator built .with_wal(TxWal size-capped, auto_rotate off) plus complete_commit/complete_abort: every sequence of <= {w_depth} operations without fault, and for every record the last operation of such a sequence appends (found by parsing the WAL file) the cap set so that exactly this append is the first to fail, once with every later append failing too (cap = bytes before the record) and once with only appends of this size and larger failing (cap = record end - 1), followed by every continuation up to the depth under the same cap. After every call, whatever it returned: every lock and every wait-for edge belongs to a transaction coordinator.get() still knows (a failed commit/abort may leave the transaction pending with its locks), a successful finish leaves nothing of the transaction; at the end of every run truncate_wal() and the failed call again (complete_commit if left Committing, otherwise abort) must succeed and leave nothing. \
+         T: for each program (2-3 threads on one LockManager+WaitForGraph or one DistributedTxCoordinator) every schedule with <= {bound} preemptions (scheduling point = every parking_lot lock acquisition); LockManager level: brute-force linearizability against the sequential lock table + quiescent state; coordinator level: a finished transaction owns no key it was granted before finishing and is neither waiter nor holder in the wait-for graph, no grant while provably held, edges/reverse_edges mirror, detect_cycles <=> recorded edges, no deadlock. non-trivial = cyclic graphs (D, G) + distinct sequential states (S) + distinct end states (K, W) + schedules with >= 1 preemption (T)"
     ));
     rep.assume("interleavings at lock-acquisition granularity (all locks on the driven paths are parking_lot via sync_compat: LockManager.locks/tx_locks, WaitForGraph.*, coordinator pending/pending_aborts/abort_states; no std::sync, tokio::sync or Condvar); the LOCK_COUNTER and stats atomics are not scheduling points; weak memory orderings are not modelled");
     rep.assume("a prepare that starts after (or overlaps) the operation finishing its transaction is outside the statement: only locks granted by a prepare that returned before the finishing call began must be gone");
     rep.assume("expiry is never tested on the boundary (age == timeout); coordinator parts stay below the 30 s lock timeout");
+    rep.assume("G/S: which transactions cleanup_stale_edges must drop is taken from the graph's own get_wait_start before the call (the statement does not define wait-start bookkeeping); states are merged when the public API cannot tell them apart (empty per-transaction sets left in the private maps are only visible through is_empty/transaction_count)");
+    rep.assume("W: the only WAL fault is the size cap (WalError::SizeLimitExceeded before anything is written; no torn record, no fsync failure, files on tmpfs); the two begin records always fit; record sizes are the same in every run (checked: a fault plan that does not hit its append is a machinery failure)");
 
+    // ---- T runs in worker processes that mostly wait for each other's scheduling tokens: start them
+    // now and collect the results after the sequential parts
+    let n_progs = programs(thorough).len();
+    let t_workers = std::thread::spawn(move || par::spawn_workers::<WStats>(par::worker_count().min(n_progs), &[]));
     // ---- D
     let t0 = env::real_now_s();
     let lap = |what: &str| eprintln!("[c12] {what} done at {:.1}s", env::real_now_s() - t0);
@@ -1718,13 +2457,53 @@ fn main() {
         rep.machinery("vacuous: detector part saw no cyclic / no acyclic graphs or too few victims");
     }
     lap("D");
+    // ---- G
+    let mut g_states = 0u64;
+    let mut g_transitions = 0u64;
+    let mut g_cyclic = 0u64;
+    let mut g_viol_total = 0u64;
+    let mut g_viol: Vec<Viol> = vec![];
+    let mut g_parts = vec![];
+    for (n, max_edges, depth) in &g_cfgs {
+        let g = part_g(*n, *max_edges, *depth);
+        for (sig, m, j) in &g.violations {
+            rep.violation(sig.clone(), m.clone(), j.clone());
+        }
+        g_parts.push(json!({"transactions": n, "max_edges_per_tx": max_edges, "depth": depth, "alphabet": g_alphabet(*n).len(), "distinct_states": g.states, "cyclic_states": g.cyclic_states, "new_states_per_level": g.per_level, "transitions": g.transitions, "transitions_by_call": g.by_call, "edges_removed_by_transitions": g.edges_dropped_by_calls, "violating_transitions": g.viol_total}));
+        if g.states < 100 || g.cyclic_states == 0 || g.edges_dropped_by_calls == 0 || g.by_call.get("remove_wait").is_none_or(|c| *c == 0) {
+            rep.machinery(format!("vacuous: wait-graph sequence part (n={n}, max_edges={max_edges})"));
+        }
+        if g_states == 0 {
+            rep.sample(json!({"part": "G", "n": n, "max_edges_per_tx": max_edges, "deepest_new_state_history": g.deepest}));
+        }
+        g_states += g.states;
+        g_transitions += g.transitions;
+        g_cyclic += g.cyclic_states;
+        g_viol_total += g.viol_total;
+        g_viol.extend(g.violations);
+    }
+    rep.part("G", json!({"configurations": g_parts, "distinct_states": g_states, "transitions": g_transitions, "violating_transitions": g_viol_total}));
+    lap("G");
     // ---- S
-    let s = part_s(s_depth);
+    let mut s = part_s(s_depth, true);
     lap("S");
     for (sig, m, j) in &s.violations {
         rep.violation(sig.clone(), m.clone(), j.clone());
     }
-    rep.part("S", json!({"depth": s_depth, "alphabet": s_alphabet().len(), "distinct_states": s.states, "new_states_per_level": s.per_level, "transitions": s.transitions, "transitions_granting": s.grants, "transitions_refusing": s.refusals, "transactions_expired_by_cleanup_transitions": s.expiries, "states_with_stale_reverse_index_entries(info)": s.stale_index_observations, "violating_transitions": s.viol_total}));
+    if thorough {
+        // one level deeper on the lock-manager calls alone
+        let s2 = part_s(s_depth + 1, false);
+        lap("S (lock-manager calls only)");
+        for (sig, m, j) in &s2.violations {
+            rep.violation(sig.clone(), m.clone(), j.clone());
+        }
+        rep.part("S_lock_manager_calls_only", json!({"depth": s_depth + 1, "alphabet": s_alphabet(false).len(), "distinct_states": s2.states, "new_states_per_level": s2.per_level, "transitions": s2.transitions, "transitions_granting": s2.grants, "transitions_refusing": s2.refusals, "transactions_expired_by_cleanup_transitions": s2.expiries, "violating_transitions": s2.viol_total}));
+        s.states += s2.states;
+        s.transitions += s2.transitions;
+        s.viol_total += s2.viol_total;
+        s.violations.extend(s2.violations);
+    }
+    rep.part("S", json!({"depth": s_depth, "alphabet": s_alphabet(true).len(), "distinct_states": s.states, "new_states_per_level": s.per_level, "transitions": s.transitions, "transitions_granting": s.grants, "transitions_refusing": s.refusals, "transactions_expired_by_cleanup_transitions": s.expiries, "states_with_stale_reverse_index_entries(info)": s.stale_index_observations, "violating_transitions": s.viol_total}));
     rep.sample(json!({"part": "S", "deepest_new_state_history": s.deepest}));
     if s.states < 200 || s.refusals == 0 || s.expiries == 0 {
         rep.machinery("vacuous: sequential lock-table part reached too few states / no refusal / no expiry");
@@ -1740,9 +2519,26 @@ fn main() {
     if k.sequences < 1000 || k.conflicts == 0 || k.finishes == 0 {
         rep.machinery("vacuous: coordinator sequence part");
     }
+    // ---- W
+    let w = part_w(w_depth);
+    lap("W");
+    for (sig, m, j) in &w.violations {
+        rep.violation(sig.clone(), m.clone(), j.clone());
+    }
+    rep.part("W", json!({"depth": w_depth, "alphabet": w_alphabet().len(), "fault_free_sequences_with_wal": w.fault_free_sequences, "runs_with_a_failing_append": w.faulty_runs, "steps_replayed": w.steps, "fault_plans_by_first_failing_append_(call#record:kind)": w.first_fault_at, "finishing_calls_succeeding_fault_free_and_failing_on_the_wal": w.failed_finishing_calls, "retried_calls_after_truncate_wal": w.retried_calls, "runs_ending_with_a_forgotten_unfinished_tx_that_owns_nothing(info)": w.forgotten_unfinished, "fault_plans_not_aligned_with_the_fault_free_run": w.misaligned, "distinct_end_states": w.distinct_end_states.len(), "violating_runs_(not_extended)": w.viol_total, "violating_runs_by_signature": w.by_signature}));
+    if let Some(x) = &w.sample {
+        rep.sample(x.clone());
+    }
+    if w.misaligned > 0 {
+        rep.machinery(format!("part W: {} fault plans did not hit the planned append (record sizes differ between runs)", w.misaligned));
+    }
+    let hit = |k: &str| w.first_fault_at.keys().any(|x| x.starts_with(k));
+    if !selftest() && (w.faulty_runs < 1000 || w.failed_finishing_calls == 0 || !["abort#1", "abort#2", "commit#1", "commit#2", "commit#3", "record_vote#1", "record_vote#2"].iter().all(|k| hit(k))) {
+        rep.machinery(format!("vacuous: WAL fault part (appends hit: {:?})", w.first_fault_at.keys().collect::<Vec<_>>()));
+    }
     // ---- T
-    let progs = programs(thorough);
-    let results: Vec<WStats> = par::spawn_workers(par::worker_count().min(progs.len()), &[]);
+    let results: Vec<WStats> = t_workers.join().expect("part T workers");
+    lap("T");
     let mut t = WStats::default();
     let mut t_sigs: Vec<(String, String)> = vec![];
     for w in results {
@@ -1769,17 +2565,18 @@ fn main() {
         }
     }
     let nontrivial: u64 = t.by_preemptions.iter().filter(|(k, _)| **k > 0).map(|(_, v)| *v).sum();
-    rep.add("states", d.cases + s.states + k.sequences + t.executions);
-    rep.add("transitions", d.add_waits + s.transitions + k.steps + t.sched_points);
-    rep.add("traces_validated_against_impl", d.cases + s.transitions + k.sequences + t.executions);
-    rep.add("evaluations", d.evals + s.transitions + k.sequences + t.executions);
-    rep.add("distinct_nontrivial", d.cyclic + s.states + k.distinct_end_states.len() as u64 + nontrivial);
+    let w_runs = w.fault_free_sequences + w.faulty_runs;
+    rep.add("states", d.cases + g_states + s.states + k.sequences + w_runs + t.executions);
+    rep.add("transitions", d.add_waits + g_transitions + s.transitions + k.steps + w.steps + t.sched_points);
+    rep.add("traces_validated_against_impl", d.cases + g_transitions + s.transitions + k.sequences + w_runs + t.executions);
+    rep.add("evaluations", d.evals + g_transitions + s.transitions + k.sequences + w_runs + t.executions);
+    rep.add("distinct_nontrivial", d.cyclic + g_cyclic + s.states + k.distinct_end_states.len() as u64 + w.distinct_end_states.len() as u64 + nontrivial);
     t.per_program.sort_by_key(|v| v["program"].as_str().unwrap_or("").to_string());
     rep.part("T", json!({"programs": t.programs, "preemption_bound": bound, "schedules_executed": t.executions, "scheduling_points": t.sched_points, "max_points_per_execution": t.max_points, "schedules_by_preemptions": t.by_preemptions, "distinct_outcomes_summed_over_programs": t.distinct_outcomes, "programs_with_a_single_outcome": t.single_outcome_programs, "violating_schedules": t.violation_total, "per_program": t.per_program}));
     if let Some(x) = t.sample {
         rep.sample(x);
     }
-    rep.set("violating_cases_by_part", json!({"D": d.viol_total, "S": s.viol_total, "K": k.viol_total, "T": t.violation_total}));
+    rep.set("violating_cases_by_part", json!({"D": d.viol_total, "G": g_viol_total, "S": s.viol_total, "K": k.viol_total, "W": w.viol_total, "T": t.violation_total}));
     if !t.single_outcome_programs.is_empty() {
         rep.machinery(format!("vacuous: programs with a single outcome (nothing collided): {:?}", t.single_outcome_programs));
     }
@@ -1787,8 +2584,10 @@ fn main() {
         // the corrupted references must alarm in every part; no evidence is written
         let hits = [
             ("D", "c12:detector:", d.viol.iter().filter(|v| v.0.starts_with("c12:detector:")).count()),
+            ("G", "c12:detector:", g_viol.iter().filter(|v| v.0.starts_with("c12:detector:")).count()),
             ("S", "c12:table:", s.violations.iter().filter(|v| v.0.starts_with("c12:table:")).count()),
             ("K", "c12:coord:granted-while-held", k.violations.iter().filter(|v| v.0.starts_with("c12:coord:granted-while-held")).count()),
+            ("W", "c12:coord:granted-while-held", w.violations.iter().filter(|v| v.0.starts_with("c12:coord:granted-while-held")).count()),
             ("T-lm", "c12:conc:lock-table-history-not-linearizable", t_sigs.iter().filter(|v| v.1 == "lm" && v.0.starts_with("c12:conc:lock-table-history-not-linearizable")).count()),
             ("T-co", "c12:coord:granted-while-held", t_sigs.iter().filter(|v| v.1 == "co" && v.0.starts_with("c12:coord:granted-while-held")).count()),
         ];
@@ -1797,7 +2596,7 @@ fn main() {
             println!("SELFTEST part {part}: {} ({hit} artefacts with signature {prefix}*)", if hit > 0 { "alarms" } else { "SILENT" });
             ok &= hit > 0;
         }
-        println!("SELFTEST total violating cases with corrupted references: {}", d.viol_total + s.viol_total + k.viol_total + t.violation_total);
+        println!("SELFTEST total violating cases with corrupted references: {}", d.viol_total + g_viol_total + s.viol_total + k.viol_total + w.viol_total + t.violation_total);
         std::process::exit(if ok { 0 } else { 2 });
     }
     rep.finish();
